@@ -301,6 +301,15 @@ func firstLine(s string) string {
 	return s
 }
 
+// SaveFailureNow persists a failure immediately (fail file + stats). It is for
+// checks whose process may be aborted before Run returns (a leaked goroutine in
+// a synctest bubble makes the runtime abort the process).
+func SaveFailureNow[S any](p *Prop[S], s S, v *V) {
+	f := saveFailure(p, s, v)
+	noteFailure(p, v, f)
+	WriteStats()
+}
+
 // Check runs the property under rapid with N()*Scale cases.
 func Check[S any](t *testing.T, p *Prop[S]) {
 	register(p)
